@@ -125,7 +125,8 @@ def plan_for(tier: str, seed: int, i: int) -> dict:
     clock_mode = erng.choice(["tied", "tied", "stepping"])
     cancel = None
     if not all_single and erng.random() < 0.2:
-        cancel = {"op": erng.randrange(k), "after_ticks": erng.choice([1, 3, 10, 50, 300])}
+        # (half of the time it is the FIRST operation - the one that gets to start a fresh v3 client's engine discovery)
+        cancel = {"op": 0 if erng.random() < 0.5 else erng.randrange(k), "after_ticks": erng.choice([1, 3, 10, 50, 300])}
     # - in a quarter of the single-exchange groups the LAST operation runs under a temporary reconfiguration (other
     #   credentials of the same family) that is entered after every other operation has sent its request and left before
     #   any of them is answered: nothing of it may be visible to the others.  The clients are warmed up first (discovery done).
@@ -248,6 +249,9 @@ def _run(plan: dict, only: Optional[int]) -> dict:
                 results[j] = ("ok", await coro)
         except asyncio.TimeoutError:
             results[j] = ("abandoned",)
+        except asyncio.CancelledError:
+            # nobody cancelled THIS operation (the abandoned one ends in TimeoutError above): an outcome to be judged
+            results[j] = ("exc", "CancelledError", "cancelled although its caller never gave up")
         except Exception as e:  # noqa: BLE001
             results[j] = ("exc", type(e).__name__, str(e)[:120])
 
